@@ -21,6 +21,7 @@ CASES = [  # (defect id, property, commit, demo, rules expected)
     ("D17", "C20", "510ef25", "d17_for_id_empty_canonical.py", ["R20.1"]),
     ("D18", "C08", "112bf6d", "d18_date_pattern_double_quote.py", ["R08.2"]),
     ("D09", "C03", "a4ff4da", "d09_towards_zero_division.py", ["R03.6"]),
+    ("D19", "C08", "4fc7de0", "d19_iso_year_minus_9999.py", ["R08.4"]),
 ]
 demos = os.path.join(HERE, "demos")
 for did, prop, commit, demo, rules in CASES:
